@@ -15,6 +15,47 @@ class AnalysisError(Exception):
     """The analysis itself cannot be carried out (vanished anchor, unknown shape)."""
 
 
+class _FStringToFormat(ast.NodeTransformer):
+    """
+    One spelling for string templates: every f-string is read as the `"<template>".format(...)` call it abbreviates
+    (`f"#/components/schemas/{name}"` -> `"#/components/schemas/{name}".format(name=name)`), so that the rules see
+    the same template constants and the same arguments whichever spelling the source uses. A plain name keeps its
+    name as the placeholder, any other expression becomes a positional `{}`. F-strings whose format spec is itself
+    computed are left as they are.
+    """
+
+    def visit_JoinedStr(self, node):
+        self.generic_visit(node)
+        tpl, args, kws = [], [], {}
+        for v in node.values:
+            if isinstance(v, ast.Constant) and isinstance(v.value, str):
+                tpl.append(v.value.replace("{", "{{").replace("}", "}}"))
+                continue
+            if not isinstance(v, ast.FormattedValue):
+                return node
+            spec = ""
+            if v.format_spec is not None:
+                if not (isinstance(v.format_spec, ast.JoinedStr) and all(isinstance(x, ast.Constant) for x in v.format_spec.values)):
+                    return node
+                spec = ":" + "".join(str(x.value) for x in v.format_spec.values)
+            conv = {-1: "", 114: "!r", 115: "!s", 97: "!a"}.get(v.conversion, "")
+            if isinstance(v.value, ast.Name):
+                kws[v.value.id] = v.value
+                tpl.append("{" + v.value.id + conv + spec + "}")
+            else:
+                # mixing automatic and explicit numbering is not allowed, but automatic + keywords is
+                args.append(v.value)
+                tpl.append("{" + conv + spec + "}")
+        if not args and not kws:
+            return ast.copy_location(ast.Constant(value="".join(tpl).replace("{{", "{").replace("}}", "}")), node)
+        call = ast.Call(
+            func=ast.Attribute(value=ast.Constant(value="".join(tpl)), attr="format", ctx=ast.Load()),
+            args=args,
+            keywords=[ast.keyword(arg=k, value=val) for k, val in kws.items()],
+        )
+        return ast.copy_location(call, node)
+
+
 class Mod(object):
     """One parsed module"""
 
@@ -37,7 +78,8 @@ class Mod(object):
         self.is_pkg = is_pkg
         self.is_test = ".tests" in name
         self.source = source
-        self.tree = ast.parse(source, filename=path)
+        self.tree = _FStringToFormat().visit(ast.parse(source, filename=path))
+        ast.fix_missing_locations(self.tree)
         self.top = {}
         self.parents = {}
         for p in ast.walk(self.tree):
